@@ -21,6 +21,8 @@ ASSUMPTIONS = [
     "PHY may negate RXActive as soon as it sees SE0 (the in-tree GatewarePHY: 0..1 cycles, measured) or only when the "
     "EOP is complete (stuffed bit + dribble bit + 2 x SE0 + J + one register; ULPI 1.1 FS 'RX end delay' of 17-18 "
     "60-MHz clocks is the same 3.6 bit times). Longer tails are not generated",
+    "SOF frame numbers are arbitrary 11-bit values (a host counts frames from any starting point, so every value "
+    "occurs whatever the device's address is); SOFs solicit nothing",
     "'comes entirely from a single transmitter' is checked as: every data packet equals the packet the addressed "
     "endpoint must send according to the independent device model (the CRC alone cannot show mixing because it is "
     "computed over the bytes actually sent)",
@@ -41,8 +43,9 @@ class Solicited(Sub):
     shrink_budget = 250
     rule = ("legal host programs of 1..12 items over the complete device: complete control transfers of every "
             "implemented request (multi-packet descriptors, absent descriptors, must-STALL requests), bulk IN/OUT on "
-            "endpoints 1/2/4 (both directions of 4), the signal endpoint, PINGs, SOFs, traffic to absent endpoint "
-            "directions, interleaved between control stages; tx_ready patterns from always-ready to one ready cycle in "
+            "endpoints 1/2/4 (both directions of 4), the signal endpoint, PINGs, SOFs (also with chosen frame numbers: low seven bits = the device's "
+            "current address or 1-7 bits away from it, any upper four bits, optionally directly after an IN transaction "
+            "to endpoint 1/3/4), traffic to absent endpoint directions, interleaved between control stages; tx_ready patterns from always-ready to one ready cycle in "
             "64; rx_active held 0..6 cycles after each host packet's last byte; a monitor on the UTMI transmit side checks that every maximal tx_valid burst is a 1-byte handshake "
             "with a valid PID or a data packet with a correct CRC16, starts within the response window after a "
             "token/data packet addressed to the device, never overlaps rx_active, and equals the packet the "
@@ -61,8 +64,18 @@ class Solicited(Sub):
         other_dev = st.builds(lambda kind, ep, n, k: dict(k="other", kind=kind, ep=ep, n=n, xor=k),
                               st.sampled_from(["out", "out", "setup", "in", "ping"]), st.sampled_from([0, 1, 2, 3, 4]),
                               st.integers(0, 8), st.one_of(st.integers(1, 127), st.sampled_from([1, 2, 64])))
+        # SOFs with a chosen frame number: the 11 payload bits of an SOF occupy the positions of ADDR + ENDP in the
+        # other tokens, so the interesting numbers are those whose low seven bits equal the device's CURRENT address
+        # (xor = 0; resolved by the BFM at run time) or differ from it in a few bits, with every value of the upper
+        # four bits (= every endpoint number).  after = an IN transaction placed directly in front of the SOF (its
+        # token is then the last one the device accepted): None = whatever the history has there (e.g. the status stage of a control transfer), else IN to endpoint
+        # 1/3/4 (acknowledged or not)
+        sof_frame = st.builds(lambda hi, xor, after, ack: dict(k="sofn", hi=hi, xor=xor, after=after, ack=ack),
+                              st.integers(0, 15), weighted([(0, 4), (1, 1), (64, 1), (0x7F, 1)]),
+                              st.sampled_from([None, None, None, 1, 3, 3, 4]), st.integers(0, 1))
         top = st.one_of(ctrl, other_dev, other_dev, ctrl_items(cut_weights=((0, 1),)), G.foreign_items(), G.foreign_items(), G.foreign_items(),
-                        st.sampled_from([dict(k="xin", ep=e, n=n, ack=1) for e in (1, 4) for n in (1, 8, 9)]), wrong_side)
+                        st.sampled_from([dict(k="xin", ep=e, n=n, ack=1) for e in (1, 4) for n in (1, 8, 9)]), wrong_side,
+                        sof_frame)
         fields = G.env_fields()
         fields["txr"] = tx_ready_patterns
         # cycles rx_active stays high after the last byte of each host packet (None = the BFM's historic 0..2)
@@ -81,6 +94,11 @@ class Solicited(Sub):
                     b.add(dict(op="setup", req=[0x80, 6, 0x0100, 0, 18], addr=addr, x=None))
                 else:
                     b.add(dict(op=it["kind"], ep=it["ep"], ack=0, addr=addr, x=None))
+                continue
+            if it["k"] == "sofn":
+                if it.get("after") is not None:
+                    b.add(dict(op="in", ep=it["after"], ack=it.get("ack", 1), x=None))
+                b.add(dict(op="sof", frame=dict(hi=it.get("hi", 0), xor=it.get("xor", 0)), x=None))
                 continue
             b.item(it)
         run = H.execute("full", b.prog, tails=case.get("tails"), **G.env_of(case))
@@ -118,6 +136,13 @@ class Solicited(Sub):
                 labels.add("absent-endpoint-side-silent")
         if any(it["k"] == "other" for it in case["items"]):
             labels.add("traffic-to-another-device-address")
+        prev = None
+        for t in run.txns:
+            if t["kind"] == "sof" and t.get("frame") is not None and (t["frame"] & 0x7F) == t.get("dev_addr"):
+                labels.add("sof-frame-number-aliases-device-address")
+                if prev is not None and prev["kind"] == "in" and prev["resp"][0] != "none":
+                    labels.add("sof-aliasing-address-after-answered-IN")
+            prev = t
         if case.get("tails") and max(case["tails"]) >= 3:
             labels.add("rx_active-tail>=3")
         stall = 0 in case["txr"]
